@@ -91,6 +91,8 @@ def _f64(x):
 def canon_py(t, v):
     """canonical form of a value produced by the implementation (type directed)"""
     k = t['k']
+    if v is None:
+        return None          # AllowNone dicts, and the holes a value-less nested list set leaves
     if k == 'int':
         if type(v) is not int:
             raise TypeError('int expected, got %r' % (v,))
